@@ -1,15 +1,14 @@
 /*@unit {
  'kind': 'bounded', 'mode': 'plain',
- 'bound': 'nmemb = NMEMB in 0..4 (quick) / 0..6 (thorough), element size 1 (unsigned char order) or 4 (int order), every rand() result (all pivot choices), arbitrary contents incl. duplicates',
+ 'bound': 'nmemb = NMEMB in 0..4 (nmemb = 5: unit qsort_n5, thorough tier); recursive calls through qsort\'s own contract for strictly smaller arrays (induction over nmemb, spec/c11_qsort_harness.h); element size 1 (unsigned char order) or 4 (int order), every rand() result (all pivot choices), arbitrary contents incl. duplicates',
  'functions': ['qsort', 'swap'],
  'clauses': 'ISO 7.22.5.2: afterwards the array is sorted w.r.t. the comparator and is a permutation of its input (multiset equality through an arbitrary probe value); every compar argument and every memcpy block lies inside the array (or is a private copy); terminates within the unwinding bounds',
  'params': {'SIZE': [1, 4], 'NMEMB': [0, 1, 2, 3, 4]},
- 'params_thorough': {'SIZE': [1, 4], 'NMEMB': [0, 1, 2, 3, 4, 5, 6]},
- 'unwind': 8, 'cbmc_flags': ['--unwindset', 'vc_qsort:5,vc_qsort.0:8,vc_qsort.1:8,vc_qsort.2:5'], 'object_bits': 12,
- 'complete_unwinding': 'all loops and the recursion are bounded by nmemb <= 6; --unwinding-assertions prove that the bounds suffice',
+  'unwind': 8, 'unwindset': ['vc_qsort.0:8', 'vc_qsort.1:8', 'vc_qsort.2:5', 'vc_memcpy.2:5'],
+ 'complete_unwinding': 'all loops are bounded by nmemb; --unwinding-assertions prove that the bounds suffice',
  'timeout': 300,
  'kf': ['C11_qsort_j_before_base'], 'kf_probe_case': {'C11_qsort_j_before_base': {'SIZE': 4, 'NMEMB': 4}},
- 'witness': {'unwind': 8},
+ 'witness': {'unwind': 8, 'unwindset': ['vc_qsort.0:8', 'vc_qsort.1:8', 'vc_qsort.2:5', 'vc_memcpy.2:5']},
  'trusted': ['memcpy = the shim memcpy (compat/libc/string/memcpy.c, real code, byte loop unwound) behind a range-checking wrapper; rand() = arbitrary int per call'],
 } @*/
 #include "vc.h"
@@ -19,7 +18,7 @@
 #include "compat/libc/string/memcpy.c"
 #undef memcpy
 #define memcpy q_memcpy
-#define qsort vc_qsort
+#define qsort(a, b, c, d) QS_SEL_##a, b, c, d)
 #define rand vc_rand
 #include "compat/libc/stdlib/qsort.c"
 #undef qsort
